@@ -226,6 +226,13 @@ def gen_case(rng, ctx):
         val = rng.choice(['1', '"s"', '[]', '{}', '{"ghost": 1, "nope": 1, "aw-watcher": 1, "": 1}', '["nope", "ghost"]', '"nope"'])
         text = f"{var} = {val}; {text}"
         fault = fault + "+unrelated-assignment"
+    elif text.startswith("RETURN = ") and ";" not in text and rng.random() < 0.3:
+        # the same fault in a statement that comes AFTER (or between) statements assigning RETURN: every statement of the
+        # text is run, wherever the result variable is assigned
+        expr = text[len("RETURN = "):]
+        text = rng.choice([f"RETURN = 1; x = {expr}", f"RETURN = 1; RETURN = {expr}", f"RETURN = 1; x = {expr}; RETURN = 2",
+                           f"x = 1; RETURN = x; y = {expr};"])
+        fault = fault + "+after-return"
     return dict(kind="fault", text=text, expect=cls, fault=fault)
 
 
